@@ -154,6 +154,13 @@ def sumQty : List Tx → Nat
 
 def MatchResult.executed (r : MatchResult) : Nat := sumQty r.txs
 
+/-- `MatchResult::executed_value` (match_result.rs:58-64): Σ price · quantity over the transactions -/
+def sumValue : List Tx → Nat
+  | [] => 0
+  | t :: ts => t.price * t.qty + sumValue ts
+
+def MatchResult.executedValue (r : MatchResult) : Nat := sumValue r.txs
+
 /-! ## The level -/
 
 structure Level where
